@@ -224,6 +224,9 @@ impl<'a> World<'a> {
         if p.sigs.iter().any(|s| *s != 0) {
             return Err("quote_signature");
         }
+        if p.bogus_payee.is_some() {
+            return Err("undecodable_payee_with_unsigned_quote");
+        }
         if p.self_pos.is_none() {
             return Err("not_a_payee");
         }
@@ -302,7 +305,21 @@ impl<'a> World<'a> {
             }
             quotes.push((claimed, q));
         }
-        data::proof(quotes)
+        let bogus = p.bogus_payee.map(|b| if p.self_pos == Some(b) { (b + 1) % p.n } else { b });
+        let raw = quotes
+            .into_iter()
+            .enumerate()
+            .map(|(i, (pid, mut q))| {
+                if Some(i as u8) == bogus {
+                    // nobody signed this quote and its payee id is garbage
+                    q.signature = vec![7u8; 64];
+                    (data::undecodable_payee(i as u8), q)
+                } else {
+                    (ant_evm::EncodedPeerId::from(pid), q)
+                }
+            })
+            .collect();
+        data::proof_raw(raw)
     }
 
     /// Build the presented record and decide, from the statement alone, what must happen.
@@ -361,10 +378,15 @@ impl<'a> World<'a> {
             }
             2 => {
                 let owner = self.tx_owners[d.who as usize % 2].clone();
+                let other_owner = self.tx_owners[(d.who as usize + 1) % 2].clone();
                 let txs: Vec<Transaction> = d
                     .items
                     .iter()
-                    .map(|(id, ok)| data::transaction(&owner, &self.stranger, *id, *ok == 1))
+                    .map(|(id, flag)| match flag {
+                        // a validly signed transaction that belongs to another address
+                        2 => data::transaction(&other_owner, &self.stranger, *id, true),
+                        _ => data::transaction(&owner, &self.stranger, *id, *flag == 1),
+                    })
                     .collect();
                 let v = match &proof {
                     Some(p) => data::transaction_paid_value(&txs[0], p),
@@ -629,11 +651,36 @@ impl<'a> World<'a> {
         true
     }
 
+    /// index of the first pending item that is not a held-back disk write
+    fn first_runnable(&self, hold_writes: bool) -> Option<u32> {
+        let (gates, led, nout) = self.pending();
+        if !hold_writes {
+            return if gates.len() + led.len() + nout > 0 { Some(0) } else { None };
+        }
+        for (i, g) in gates.iter().enumerate() {
+            if g.site != "store.write" {
+                return Some(i as u32);
+            }
+        }
+        if led.len() + nout > 0 {
+            return Some(gates.len() as u32);
+        }
+        None
+    }
+
     async fn pump_fifo(&mut self) {
+        self.pump(false).await
+    }
+
+    async fn pump(&mut self, hold_writes: bool) {
         for round in 0..40 {
             for _ in 0..100_000 {
                 self.drain().await;
-                if !self.run_item(0).await {
+                let Some(sel) = self.first_runnable(hold_writes) else { break };
+                if hold_writes && sel != 0 {
+                    self.rep.probe("disk_write_held_back");
+                }
+                if !self.run_item(sel).await {
                     break;
                 }
                 self.check_reads_mid_flight();
@@ -770,7 +817,7 @@ impl<'a> World<'a> {
                         self.rep.violate(
                             "C07",
                             "state_changed_by_noop_delivery",
-                            &[("kind", kindn.clone()), ("entry", entry.clone())],
+                            &[("kind", kindn.clone()), ("entry", entry.clone()), ("config", self.plan.mode.clone())],
                             format!("delivery {} ({kindn}) carries nothing new/valid but the stored record changed", f.n),
                         );
                     }
@@ -781,6 +828,14 @@ impl<'a> World<'a> {
                     } else if same_as(self, &Some(s.clone())) {
                         self.model.insert(key.clone(), s.clone());
                         self.rep.probe("accepted_and_stored");
+                    } else if same_as(self, &prior) && matches!(result, Some(Ok(()))) {
+                        // the upload was acknowledged as stored, so it must be what the node now serves
+                        self.rep.violate(
+                            "C07",
+                            "accepted_delivery_not_readable",
+                            &[("kind", kindn.clone()), ("entry", entry.clone()), ("config", self.plan.mode.clone())],
+                            format!("delivery {} ({kindn}) was accepted (Ok) and carries the newest valid version, but the node still serves the previous state", f.n),
+                        );
                     } else if same_as(self, &prior) {
                         // refusing a valid delivery is not a violation of the statements; recorded
                         self.rep.probe("valid_delivery_not_stored");
@@ -956,6 +1011,32 @@ impl<'a> World<'a> {
         self.rep.state.write_str(&st);
     }
 
+    /// once everything has settled the store holds exactly the model's state for every key
+    fn final_store_equals_model(&mut self) {
+        if self.plan.mode == "concurrent" || !self.rep.violations.is_empty() {
+            return;
+        }
+        for (k, want) in self.model.clone() {
+            let got = self.read(&k);
+            let ok = got.as_ref().map(|g| self.stored_equals(g, &want)).unwrap_or(false);
+            if !ok {
+                let kind = match want {
+                    Stored::Chunk(_) => "chunk",
+                    Stored::Pad(_) => "scratchpad",
+                    Stored::Txs(_) => "transaction",
+                    Stored::Reg(_) => "register",
+                };
+                self.rep.violate(
+                    "C07",
+                    "final_state_differs_from_model",
+                    &[("kind", kind.into()), ("config", self.plan.mode.clone())],
+                    format!("after everything settled the stored {kind} record is not what the accepted deliveries determine ({})", if got.is_some() { "other content" } else { "missing" }),
+                );
+                return;
+            }
+        }
+    }
+
     async fn deliver(&mut self, d: &Delivery) {
         let n = self.delivered;
         self.delivered += 1;
@@ -1089,15 +1170,17 @@ impl<'a> World<'a> {
                     }
                 }
                 Step::Settle => {
-                    self.pump_fifo().await;
-                    self.rep.log("settle");
+                    let hold = self.plan.mode == "lagging_writes";
+                    self.pump(hold).await;
+                    self.rep.log(if hold { "settle (disk writes held back)" } else { "settle" });
                     self.evaluate("settle");
                 }
             }
         }
-        if !self.inflight.is_empty() && self.rep.violations.is_empty() && self.rep.harness_error.is_none() {
+        if self.rep.violations.is_empty() && self.rep.harness_error.is_none() && (!self.inflight.is_empty() || self.plan.mode == "lagging_writes") {
             self.pump_fifo().await;
             self.evaluate("end");
+            self.final_store_equals_model();
         }
     }
 }
